@@ -8,9 +8,9 @@ import vlib
 D = os.path.join(vlib.SPEC, "writer")
 
 
-def wr_cfg(nreq, mb, dev):
-    return "CONSTANTS\n  Req = {%s}\n  MaxBatch = %d\n  DEV = {%s}\nSPECIFICATION Spec\nINVARIANTS Atomic AckedIsDurable FailedHasNoEffect MarksCommittedWithData WriterStaysUsable\nCHECK_DEADLOCK FALSE\n" % (
-        ", ".join("r%d" % i for i in range(1, nreq + 1)), mb, ", ".join('"%s"' % d for d in dev))
+def wr_cfg(nreq, mb, dev, inv="Atomic AckedIsDurable FailedHasNoEffect MarksCommittedWithData WriterStaysUsable UnloggedIsMarked LogCountsOnlyStored RepairedByRecompute"):
+    return "CONSTANTS\n  Req = {%s}\n  MaxBatch = %d\n  DEV = {%s}\nSPECIFICATION Spec\nINVARIANTS %s\nCHECK_DEADLOCK FALSE\n" % (
+        ", ".join("r%d" % i for i in range(1, nreq + 1)), mb, ", ".join('"%s"' % d for d in dev), inv)
 
 
 def run(ctx, replay):
@@ -22,6 +22,8 @@ def run(ctx, replay):
     else:
         ctx.model_check(D, "Writer", wr_cfg(3 if quick else 4, 2 if quick else 3, []), "design")
         ctx.expect_counterexample(D, "Writer", wr_cfg(3, 2, ["FailureLeavesTxnOpen"]), "cex_txnopen")
+        # the marks outside the transaction: a crash between the commit and the marks leaves content the log never counts
+        ctx.expect_counterexample(D, "Writer", wr_cfg(2, 2, ["MarksAfterCommit"], "UnloggedIsMarked"), "cex_marks_late")
         hs = ctx.generate(D, "Gen_Writer", "SPECIFICATION Spec\nINVARIANT Emit\nCHECK_DEADLOCK FALSE\n", "faults", workers=1, timeout=300, limit=90 if quick else None)
         scen = []
         for i, h in enumerate(hs):
